@@ -1,6 +1,8 @@
 (* C20 -- Plugins are optional: ordered, skipped when inactive, isolated when faulty. *)
 From Deep Require Import Base ExnFlow Plugins PluginsProofs.
 From DeepGen Require Import Skeleton.
+From DeepGen Require Import PSpans.
+From Deep Require Import PureSupport TieSpans.
 From Coq Require Import Sorted.
 
 (* loader: exactly the candidates that import, construct and report active are loaded, ordered by declared order *)
@@ -37,3 +39,11 @@ Print Assumptions C20_every_plugin_attempted.
 Theorem C20_loops_found : length plugin_loop_bodies = 10%nat.
 Proof. vm_compute. reflexivity. Qed.
 Print Assumptions C20_loops_found.
+
+(* ---- tie by translation: SpanActionContext.can_trigger as it is in /repo/src NOW (gen/PSpans.v): the span plugin is optional -
+   without one the span action cannot trigger, whatever its limits and condition say *)
+Theorem C20_the_code_span_needs_a_processor :
+  forall has_processor gate_,
+  gen_span_can_trigger has_processor gate_ = has_processor && gate_ /\ gen_span_can_trigger false gate_ = false.
+Proof. intros. split; [apply tie_span_can_trigger | reflexivity]. Qed.
+Print Assumptions C20_the_code_span_needs_a_processor.
